@@ -264,6 +264,20 @@ var nodes = []NodeSpec{
 		p.Fields["v"] = v + 1
 		return p, true
 	})},
+	{Name: "eval-overwrite-keep-list", Tick: `eval(lambda: "v" + 1).as('v').keep('v', 'o')`, Ref: perPoint(func(p RP) (RP, bool) {
+		v, ok := p.Fields["v"].(int64)
+		if !ok {
+			return p, false
+		}
+		nf := map[string]any{"v": v + 1}
+		if o, ok := p.Fields["o"]; ok {
+			nf["o"] = o
+		} else {
+			return p, false // a kept field that does not exist: the point is dropped with an error
+		}
+		p.Fields = nf
+		return p, true
+	})},
 	{Name: "eval-float", Tick: `eval(lambda: float("v") / 2.0).as('w').keep()`, Ref: perPoint(func(p RP) (RP, bool) {
 		f, ok := num(p.Fields["v"])
 		if !ok {
@@ -346,6 +360,8 @@ var nodes = []NodeSpec{
 	{Name: "groupBy-none", Tick: `groupBy()`, Regroup: true, Ref: regroup(func(p RP) []string { return nil }, false)},
 	{Name: "flatten", Tick: `flatten().on('p').tolerance(1s)`, NoRef: true},
 	{Name: "combine", Tick: `combine(lambda: "p" == 'p0', lambda: "p" == 'p1').as('x', 'y').tolerance(1s)`, NoRef: true},
+	// exactly as many combinations as max() allows (3 points of one instant, pairs: C(3,2) = 3), and one fewer allowed
+	{Name: "combine-max-exact", Tick: `combine(lambda: TRUE, lambda: TRUE).as('x', 'y').tolerance(1s).max(3)`, NoRef: true},
 	{Name: "chain", Tick: "default().field('v', 0)|eval(lambda: \"v\" + 1).as('w').keep()|where(lambda: \"w\" > 2)|shift(1s)", NoRef: true},
 }
 
@@ -368,7 +384,9 @@ func (c Case) script(single bool) string {
 
 type result struct {
 	sinks map[string][]kit.Item
-	err   string
+	// failed: "node failed" diagnostics (a node whose run function returned an error: the task is dead)
+	failed []string
+	err    string
 	leak  string
 	pan   string
 }
@@ -445,6 +463,11 @@ func run(t *testing.T, c Case, single bool) (res result) {
 		kit.Wait()
 		for _, name := range env.Diag.SinkNames() {
 			res.sinks[name] = append([]kit.Item(nil), env.Diag.Sink(name).Items...)
+		}
+		for _, e := range env.Diag.ErrorsCopy() {
+			if e.Msg == "node failed" {
+				res.failed = append(res.failed, e.Node+": "+e.Err)
+			}
 		}
 	})
 	res.leak = leak
@@ -576,6 +599,10 @@ func check(t *testing.T, c Case, r *rep.R) []problem {
 	var ps []problem
 	if res.leak != "" {
 		ps = append(ps, problem{"leak:" + cls, describe(c) + ": " + rep.Short(res.leak)})
+	}
+	if len(res.failed) > 0 {
+		// none of the enumerated inputs is beyond what a node accepts (combine: at most max() combinations per instant)
+		ps = append(ps, problem{"node-failed:" + cls, fmt.Sprintf("%s: %v", describe(c), res.failed)})
 	}
 	a, b, raw := itemsStr(res.sinks["A"]), itemsStr(res.sinks["B"]), itemsStr(res.sinks["R"])
 	if n.Regroup && c.Mode != "stream" {
